@@ -71,6 +71,9 @@ macro_rules! stays_near {
 stays_near!(near_airborne, false);
 stays_near!(near_surface, true);
 
+// (cutting these two into eight pieces each - parity x hemisphere x side of the reference longitude - does not make the
+// pieces cheaper: one piece took 1081 s; the cost is in the formula, not in the size of the input space)
+
 macro_rules! lat_exact {
     ($name:ident, $surface:expr, $odd:expr) => { lat_exact!($name, $surface, $odd, -1000, 1000); };
     ($name:ident, $surface:expr, $odd:expr, $zlo:expr, $zhi:expr) => {
